@@ -15,9 +15,9 @@ ConstInit == Closers = {"k1", "k2", "k3", "k4"} /\ Conns = {"c1", "c2", "c3", "c
 ConstInitPinned == Closers = {"k1", "k2"} /\ Conns = {"c1"} /\ Variant = "pinned"
 
 KStates == {"off", "enter", "locked", "decided", "waiting", "inwait", "return", "done"}
-CStates == {"idle", "midread", "admit", "locked", "added", "refused", "handler", "donep"}
+CStates == {"idle", "midread", "admit", "locked", "added", "admitted", "refused", "handler", "donep"}
 
-Running == {c \in Conns : cpc[c] \in {"added", "handler"}}
+Running == {c \in Conns : cpc[c] \in {"added", "admitted", "handler"}}
 PastDecision == {"decided", "waiting", "inwait", "return", "done"}
 
 IndInv ==
